@@ -7,6 +7,7 @@ CONSTANTS
   MaxDepth = 3
 CONSTRAINT Bound
 PROPERTY InvertIsInverse
+PROPERTY NormalizeGivesVersor
 INVARIANT NonZero
 INVARIANT Laws2
 INVARIANT InverseLaw
